@@ -659,3 +659,20 @@ Proof.
   split; [vm_compute in E; injection E as <- _; reflexivity|]. split; [reflexivity|].
   split; vm_compute in E2; injection E2 as <- _; reflexivity.
 Qed.
+
+(* C14_eval_clean on the merged state of the file with expressions (dtext: `x $l[0]; m $n;`): the evaluated state is clean *)
+Example C14_eval_clean_nonvacuous :
+  exists sm km s1, read_merged C14_clean_ex.dfs C14_clean_ex.root true true 0 = Ok (sm, km) /\
+    sd_expr sm <> [] /\ eval_expressions sm = Some (Ok s1) /\
+    (clean_state s1 = true /\ tabs_ok s1 = true) /\ deep_state s1 = true.
+Proof.
+  destruct (read_merged C14_clean_ex.dfs C14_clean_ex.root true true 0) as [[sm km]|e] eqn:E; [|vm_compute in E; discriminate E].
+  destruct (eval_expressions sm) as [[s1|e]|] eqn:E1.
+  - exists sm, km, s1. split; [reflexivity|]. split.
+    + vm_compute in E. injection E as Es _. subst sm. vm_compute. discriminate.
+    + split; [exact E1|]. apply (C14_eval_clean sm s1); [| |exact E1].
+      * vm_compute in E. injection E as Es _. subst sm. vm_compute. split; reflexivity.
+      * vm_compute in E. injection E as Es _. subst sm. vm_compute. reflexivity.
+  - exfalso. vm_compute in E. injection E as Es _. subst sm. vm_compute in E1. discriminate E1.
+  - exfalso. vm_compute in E. injection E as Es _. subst sm. vm_compute in E1. discriminate E1.
+Qed.
